@@ -31,6 +31,11 @@ type c19Case struct {
 	// Then: inputs parsed on the SAME VM after Src was rejected; the error object of Src is rendered again afterwards and must
 	// read exactly as it did at first
 	Then []string `json:",omitempty"`
+	// Lazy: Src is not the input but the body of a value that is compiled when it is first used ("computed": a never-compiled
+	// computed value object shared by the VMs; "def": DefaultDiceSideExpr of one VM). It is used under Lang, then under Lang2,
+	// then under Lang again: every error is in the language of the VM that reports it
+	Lazy  string `json:",omitempty"`
+	Lang2 int    `json:",omitempty"`
 }
 
 var errTokens = []string{
@@ -79,6 +84,16 @@ func c19Enumerate(tier string, seed int64, emit func(string, any)) {
 		for lang := 0; lang < 3; lang++ {
 			for _, pre := range []string{"(1 +\n", "[技能,\n  "} { // an opening bracket: the input is rejected unless the tokens close it
 				emit("sequential/error rendered after later parses on the same VM", c19Case{Src: pre + s, Lang: lang, Then: []string{"7", "(\n\n(", strings.Repeat("技能 + ", 12) + ")", ""}})
+			}
+		}
+	})
+	// syntax errors inside bodies that are compiled lazily, read under one language and then under another
+	gen.StringsUpTo(errTokens, 2, func(s string) {
+		for _, pre := range []string{"(1 +\n", "[技能, "} {
+			for _, l := range [][2]int{{1, 2}, {2, 1}, {0, 2}, {1, 0}} {
+				for _, kind := range []string{"computed", "def"} {
+					emit("sequential/lazily compiled body under two languages", c19Case{Src: pre + s, Lang: l[0], Lang2: l[1], Lazy: kind})
+				}
 			}
 		}
 	})
@@ -176,13 +191,23 @@ func checkSyntaxError(src string, lang int, msg string) (sig, what string) {
 		return "C19:offset-outside-input", fmt.Sprintf("offset %d outside input of %d bytes", off, len(src))
 	}
 	wl, wc := lineCol(src, off)
+	quirk := ""
 	if l != wl || c != wc {
-		kind := "other"
 		if off < len(src) && src[off] == '\n' && l == wl+1 && c == 0 {
-			kind = "newline-reported-as-next-line-col-0"
+			// the known finding: an error AT a line break is labelled (next line, column 0). The rest of the message is still
+			// checked, against the position it reports (quoted line = the reported line, caret at the line start), so that
+			// the finding does not hide other changes to such messages
+			quirk = fmt.Sprintf("offset %d is line %d col %d, reported %d:%d", off, wl, wc, l, c)
+			wl, wc = l, 1
+		} else {
+			return "C19:position:other", fmt.Sprintf("offset %d is line %d col %d, reported %d:%d", off, wl, wc, l, c)
 		}
-		return "C19:position:" + kind, fmt.Sprintf("offset %d is line %d col %d, reported %d:%d", off, wl, wc, l, c)
 	}
+	defer func() {
+		if sig == "" && quirk != "" {
+			sig, what = "C19:position:newline-reported-as-next-line-col-0", quirk
+		}
+	}()
 	title := m[4]
 	wantTitle := []string{"语法错误 Syntax Error", "语法错误", "Syntax Error"}[lang]
 	if title != wantTitle {
@@ -212,6 +237,18 @@ func checkSyntaxError(src string, lang int, msg string) (sig, what string) {
 			return "C19:frame", "missing frame end"
 		}
 		rest = rest[4:]
+	}
+	if quirk != "" {
+		// such messages name the offending character, here the line break itself, which breaks the footer line in two
+		var joined []string
+		for _, f := range rest {
+			if len(joined) > 0 && !reFooter.MatchString(f) {
+				joined[len(joined)-1] += "\\n" + f
+			} else {
+				joined = append(joined, f)
+			}
+		}
+		rest = joined
 	}
 	wantFoot := []int{2, 1, 1}[lang]
 	if len(rest) != wantFoot {
@@ -255,6 +292,41 @@ func c19Run(raw json.RawMessage) harn.Result {
 		return c19ConcRun(c)
 	}
 	res := harn.Result{Stats: map[string]int64{}}
+	if c.Lazy != "" {
+		res.Nontrivial = true
+		res.Outcome = "rejected"
+		cv := ds.NewComputedVal(c.Src)
+		bud := drv.AllOn()
+		bud.OpLimit, bud.ParseLimit = 2000, 100000 // (an acceptable body may well loop)
+		one := drv.NewVM(bud)
+		for step, lang := range []int{c.Lang, c.Lang2, c.Lang} {
+			var vm *ds.Context
+			use := "lz + 1"
+			if c.Lazy == "computed" {
+				vm = drv.NewVM(bud) // a VM of its own per step, sharing the value object
+				vm.Attrs.Store("lz", cv)
+			} else {
+				vm = one // one VM whose language is switched between the steps
+				vm.Config.DefaultDiceSideExpr = c.Src
+				use = "2d + 1"
+			}
+			vm.Config.ParseErrorLanguage = lang
+			var err error
+			if site, p := harn.Guard(func() { err = vm.Run(use) }); p {
+				res.Violations = append(res.Violations, harn.Violation{Signature: site, What: fmt.Sprintf("panic using a value with the body %q", c.Src)})
+				return res
+			}
+			if err == nil || !drv.IsSyntaxError(err) {
+				res.Outcome = "accepted"
+				return res // the body is acceptable (or fails for another reason): not a case
+			}
+			if sig, what := checkSyntaxError(c.Src, lang, err.Error()); sig != "" && sig != "C19:position:newline-reported-as-next-line-col-0" {
+				res.Violations = append(res.Violations, harn.Violation{Signature: sig, What: fmt.Sprintf("lazily compiled body %q (%s), use #%d under language %d (languages %d, %d, %d): %s\n--- message ---\n%s", c.Src, c.Lazy, step, lang, c.Lang, c.Lang2, c.Lang, what, err.Error())})
+				return res
+			}
+		}
+		return res
+	}
 	cfg := drv.AllOn()
 	cfg.Lang = c.Lang
 	vm := drv.NewVM(cfg)
